@@ -600,8 +600,14 @@ func TestSetsFreeSchedule(t *testing.T) {
 		}
 		close(start)
 		waitAll(t, &wg, rec)
+		// once everything has returned, the set is read sequentially: the final answers belong to the history too
+		for _, k := range []string{"x", "y"} {
+			call := tick()
+			out := s.Exists(k)
+			rec.add(porcupine.Operation{ClientId: ng, Input: setIn{Op: "exists", Key: k}, Call: call, Output: out, Return: tick()})
+		}
 		if !porcupine.CheckOperations(setModel, rec.ops) {
-			t.Fatalf("C20: concurrent history of %s is not linearizable: %v", which, rec.ops)
+			t.Fatalf("C20: concurrent history of %s (with the sequential reads at its end) is not linearizable: %v", which, rec.ops)
 		}
 		var d []string
 		for _, o := range rec.ops {
